@@ -173,6 +173,24 @@ class Monitor:
             rtx = self.call(wmod, cons, wallet, world, amount, fee, recipient, change_key, history, w)
             if rtx is not None:
                 pending.append(rtx)
+            if rng.random() < 0.12 and len(world.chain.order) > 2:
+                # reorganisation: a competing branch off the head's parent (without the wallet's transactions) overtakes;
+                # outputs whose spends were confirmed on the abandoned branch are unspent again at the new head, yet they
+                # were used by earlier spends of this wallet and must not be picked again
+                hd = world.cs.current_chain_hash
+                cur = world.chain.blocks[hd].prev
+                if cur != ref.ZERO32:
+                    hh = world.chain.blocks[hd].height
+                    try:
+                        while world.chain.blocks[cur].height <= hh:
+                            rb, real = world.assemble(cur, [], world.chain.blocks[cur].ts + 70, rng.choice(foreign), route="ref")
+                            cur = world.accept(rb, real, now=rb.ts)
+                        w["blocks"] = gen.blocks_hex(world, world.chain.order[1:])
+                        if world.cs.current_chain_hash == cur:
+                            c["reorganisations_between_calls"] = c.get("reorganisations_between_calls", 0) + 1
+                            pending = [t for t in pending]
+                    except Exception:
+                        pass
             if pending and rng.random() < 0.3:
                 # confirm the pending spends in a new block on the head
                 parent = world.chain.blocks[head]
@@ -201,7 +219,7 @@ def small_scope(mon, rng, length, shard, nshard):
         pid = base.accept(rb, real, validate=False)
     u = ref.subsidy(1)
     amounts = [1, u // 2, u, u + 1, 2 * u, 2 * u + 1, 3 * u, 4 * u, 4 * u + 1]
-    events = [(a_, f_) for a_ in amounts for f_ in (0, 5)] + ["confirm"]
+    events = [(a_, f_) for a_ in amounts for f_ in (0, 5)] + ["confirm", "reorg"]
     idx = 0
     for seq in itertools.product(range(len(events)), repeat=length):
         idx += 1
@@ -217,6 +235,17 @@ def small_scope(mon, rng, length, shard, nshard):
         mon.c["small_scope_sequences"] = mon.c.get("small_scope_sequences", 0) + 1
         for e in seq:
             ev = events[e]
+            if ev == "reorg":
+                hd = world.cs.current_chain_hash
+                cur = world.chain.blocks[hd].prev
+                if cur != ref.ZERO32:
+                    hh = world.chain.blocks[hd].height
+                    while world.chain.blocks[cur].height <= hh:
+                        rb, real = world.assemble(cur, [], world.chain.blocks[cur].ts + 70, world.keys[4][1], route="ref")
+                        cur = world.accept(rb, real, validate=False)
+                    w["blocks"] = gen.blocks_hex(world, world.chain.order[1:])
+                    mon.c["reorganisations_between_calls"] = mon.c.get("reorganisations_between_calls", 0) + 1
+                continue
             if ev == "confirm":
                 if pending:
                     head = world.cs.current_chain_hash
@@ -276,6 +305,7 @@ def finalize(m, tier):
                    ("multi_input", c.get("multi_input", 0), 100),
                    ("calls_after_a_failed_attempt", c.get("calls_after_a_failed_attempt", 0), 100),
                    ("confirmations_between_calls", c.get("confirmations_between_calls", 0), 30),
-                   ("small_scope_sequences", c.get("small_scope_sequences", 0), 19 ** 3)],
+                   ("small_scope_sequences", c.get("small_scope_sequences", 0), 20 ** 3),
+                   ("reorganisations_between_calls", c.get("reorganisations_between_calls", 0), 200)],
         "extra": {},
     }
